@@ -1,7 +1,7 @@
 (** C08 — compact and full outputs describe the same tensor. *)
 From Coq Require Import List Arith Bool NArith.
 Import ListNotations.
-From SymfcV Require Import Tuples Group Concrete.
+From SymfcV Require Import Tuples Group Concrete AtomIdx.
 From SymfcG Require Import SolverStruct IndepGen.
 Local Open Scope nat_scope.
 
@@ -48,6 +48,21 @@ Proof. exact (indep_scan_t N tp). Qed.
 Print Assumptions c08_p2s_scan_returns_orbit_minima.
 Example c08_scan_ex : indep_scan 2 4 (act [[0; 1; 2; 3]; [2; 3; 0; 1]]) = [0; 1].
 Proof. reflexivity. Qed.
+
+(** The atom-level index table that maps every tuple of the full tensor to its row of the compact one
+    (`get_atomic_lat_trans_decompr_indices_O3/_O4`: nested loops with one running counter, each counter value written at
+    all translates; whole-function match, regenerated) IS the class code, for every valid table and nesting depth:
+    whatever write order numpy uses, the finished table holds cls_code at every in-range tuple. *)
+Theorem c08_atomic_indices_in_force : atomic_indices_O3_O4_are_counter_loops = true.
+Proof. reflexivity. Qed.
+Theorem c08_atomic_index_table_is_class_code NA tp k a :
+  valid_tp NA tp = true -> length a = S k -> in_range NA a ->
+  lookup a (atomic_writes NA tp k) = Some (cls_code NA tp a).
+Proof. intros Hv. exact (atomic_table_is_cls_code NA tp Hv k a). Qed.
+Print Assumptions c08_atomic_index_table_is_class_code.
+Example c08_atomic_ex : map snd (atomic_writes 2 [[0; 1]; [1; 0]] 1) = [0; 0; 1; 1]%N
+  /\ map fst (atomic_writes 2 [[0; 1]; [1; 0]] 1) = [[0; 0]; [1; 1]; [0; 1]; [1; 0]].
+Proof. split; reflexivity. Qed.
 
 (** Both outputs are comp @ (basis @ coefs) with the same coefficients; the compact matrix is the
     translation-compressed matrix scaled by 1/sqrt(n_lp), the same factor that C_trans carries. *)
